@@ -109,6 +109,34 @@ func caseGen(r *mon.Rec, idx int) {
 				return
 			}
 		}
+		// a twin with equal contents whose byte slices live in larger buffers with other data behind them (a hardware
+		// address or an option value cut out of a received frame): equal contents, identical bytes
+		home := func(b []byte) []byte {
+			if b == nil {
+				return nil
+			}
+			big := gen4.Bytes(rng, len(b)+1+rng.IntN(24))
+			for i := len(b); i < len(big); i++ {
+				big[i] |= 0x81 // never zero
+			}
+			copy(big, b)
+			return big[:len(b)]
+		}
+		twin := *p
+		twin.ClientHWAddr = home(p.ClientHWAddr)
+		twin.ClientIPAddr, twin.YourIPAddr, twin.ServerIPAddr, twin.GatewayIPAddr = home(p.ClientIPAddr), home(p.YourIPAddr), home(p.ServerIPAddr), home(p.GatewayIPAddr)
+		twin.Options = dhcpv4.Options{}
+		for c, v := range p.Options {
+			twin.Options[c] = home(v)
+		}
+		if w := twin.ToBytes(); !bytes.Equal(w, first) {
+			d := 0
+			for d < len(w) && d < len(first) && w[d] == first[d] {
+				d++
+			}
+			r.Violate("C07:equal-contents-different-bytes", fmt.Sprintf("a packet with equal contents whose byte slices have spare capacity encodes differently (first difference at offset %d)", d), rp)
+			return
+		}
 		// standalone options encoding = the options area without End
 		ob := p.Options.ToBytes()
 		full := append(append(append([]byte{}, first[:240]...), ob...), 255)
